@@ -1,7 +1,8 @@
 /-
 Line-protocol driver over `Model/Codec` (property C12).  One output line per input line; see
-`harness/src/bin/codec.rs` for the protocol.  `drv_codec --fix` runs the decoder with finding F7
-repaired (used to validate `/verif/fixes/F7-bitvec-decode.diff` against a patched tree).
+`harness/src/bin/codec.rs` for the protocol.  The default is the code as it is (`decode true`, BitVec
+decoding mirrors its encoding since /repo commit e089897); `drv_codec --asis-f7` runs the historical
+decoder that had finding F7 (`decode false`) — only useful against a tree with that commit reverted.
 -/
 import QbiceVerif.Model.Codec
 
@@ -452,7 +453,7 @@ partial def loop (fix : Bool) (h : IO.FS.Stream) (out : IO.FS.Stream) : IO Unit 
   loop fix h out
 
 def main (args : List String) : IO Unit := do
-  let fix := args.contains "--fix"
+  let fix := !(args.contains "--asis-f7")
   let stdin ← IO.getStdin
   let stdout ← IO.getStdout
   loop fix stdin stdout
